@@ -273,6 +273,22 @@ def run(ck: Check, prog: Program) -> None:
         p2.append(('FALLBACKS', 'unpatched endpoint is not passed through / refused as configured', onr.node.lineno,
                    'an endpoint without patches must be passed to the original transport when passthrough is on and refused with '
                    'ConnectionRefusedError otherwise'))
+    # the passthrough hands the original transport exactly what the replacement was called with, in the same positions (the original
+    # is the client's own `_request(self, request_text, is_notification, **kwargs)`)
+    own_pos = [a.arg for a in onr.node.args.args][1:]
+    for n in pass_nodes:
+        for c_ in calls_in(n):
+            if isinstance(c_.func, ast.Attribute) and c_.func.attr == 'temp_original':
+                given = [dotted(a) for a in c_.args]
+                if given != own_pos[:len(given)] or len(given) < min(3, len(own_pos)) and not any(k.arg in own_pos for k in c_.keywords):
+                    p2.append(('FALLBACKS', f'passthrough arguments {given}', n.line,
+                               f'`{norm(c_)[:100]}` must hand the original transport the arguments of the intercepted call in their own positions '
+                               f'({", ".join(own_pos[:3])}): with {given} the real transport is called with the wrong receiver / text and '
+                               f'fails (AttributeError) instead of passing the request through'))
+                kw_name = onr.node.args.kwarg.arg if onr.node.args.kwarg else None
+                if kw_name and not any(k.arg is None and dotted(k.value) == kw_name for k in c_.keywords):
+                    p2.append(('FALLBACKS', 'passthrough drops the keyword arguments', n.line,
+                               f'`{norm(c_)[:100]}` does not forward **{kw_name}: per-request transport options are lost on the way to the real transport'))
     # batch loop — decided on the values: what is iterated is the deserialised batch, and what is appended is the matcher's answer
     # for the loop element (through locals)
     from ..flow import Flow as _FlowB
@@ -420,6 +436,45 @@ def run(ck: Check, prog: Program) -> None:
     if not ok_add:
         ck.finding('ROTATE', ci.qualname + '.add', 'add does not append at the tail', ci.module.rel, add.node.lineno if add else 0,
                    'patches must be stored in order of addition under (endpoint, (version, method))')
+    # remove(endpoint, method_name=None): without a method the whole endpoint goes, with one only that method's patches
+    rem = ci.methods.get('remove')
+    if rem is None:
+        raise AnalysisError('PjRpcMocker.remove not found')
+    ck.functions.add(rem.qualname)
+    rcfg = CFG(rem, prog)
+    mp = next((a.arg for a in rem.params if 'method' in a.arg), None)
+    rem_bad = []
+    n_pops = 0
+    for n in rcfg.stmt_nodes():
+        for c_ in calls_in(n):
+            if not (isinstance(c_.func, ast.Attribute) and c_.func.attr in ('pop', '__delitem__') and c_.args):
+                continue
+            recv = c_.func.value
+            whole = dotted(recv) is not None and dotted(recv).startswith('self.') and dotted(c_.args[0]) == 'endpoint'
+            pair = isinstance(recv, ast.Subscript) and dotted(recv.slice) == 'endpoint' and mp is not None and \
+                any(isinstance(y, ast.Name) and y.id == mp for y in ast.walk(c_.args[0]))
+            if not (whole or pair):
+                continue
+            n_pops += 1
+            state = None
+            for g in guard_edges(rcfg, n):
+                k = classify_cond(prog, rem, g.src.ast)
+                if k.subject == mp and k.kind in ('is-none', 'truthy'):
+                    is_none = ((g.label == 'T') != k.negated) if k.kind == 'is-none' else ((g.label == 'T') == k.negated)
+                    state = is_none
+            want = whole
+            if state is not None and state != want or state is None:
+                rem_bad.append((n.line, f'`{norm(c_)[:60]}` runs when {mp} is {"None" if state else "given" if state is not None else "anything"}'))
+    ok_rem = not rem_bad
+    ck.ob('ROTATE', 'remove: the whole endpoint is dropped only when no method is named, one method\'s patches otherwise', ok_rem, nontrivial=n_pops >= 2,
+          sample={'pops': n_pops})
+    for line, what in rem_bad:
+        ck.finding('ROTATE', rem.qualname, what[:80], rem.module.rel, line,
+                   f'{what}: remove(endpoint, method) must drop that method\'s patches only and remove(endpoint) the whole endpoint — the other way round '
+                   f'removing one method un-patches every method of the endpoint (its calls are then refused / passed through instead of answered), '
+                   f'and remove(endpoint) raises KeyError')
+    if n_pops < 2:
+        ck.not_decided.append('remove(): the two removal forms were not both recognised as pop() calls')
     ok_rep = rep is not None and any(isinstance(x, ast.Subscript) and isinstance(x.ctx, ast.Store) and dotted(x.slice) == 'idx' for x in walk_own(rep.node))
     ck.ob('ROTATE', 'replace overwrites the patch at the given index', ok_rep, nontrivial=False)
     if not ok_rep:
